@@ -61,6 +61,11 @@ def _path_of(doc, target_container, target_index):
     raise KeyError
 
 
+def _split_words(name):
+    import re
+    return [w for w in re.findall(r"[A-Z]+(?![a-z])|[A-Z]?[a-z0-9]+|[A-Z]+", name) if w] or [name]
+
+
 def _get(doc, path):
     x = doc
     for p in path:
@@ -100,6 +105,13 @@ def edits(schema, doc, rng=None, max_per_rule=None):
                     c[k][1] = key
                     c[k][2] = "zz_no_such_field"
                 emit("E1", "unknown-field-under-repeated-key@%s/%s" % (where, it[2]), edited(container, i, rekey), dict(meta, form="repeated-key"))
+            # E1 unknown field hiding behind the response key `__typename` (an alias is only a response key: `__typename: nope`
+            # still selects `nope`)
+            if it[4] is None:
+                def as_typename(c, k):
+                    c[k][1] = "__typename"
+                    c[k][2] = "zz_no_such_field"
+                emit("E1", "unknown-field-aliased-__typename@%s/%s" % (where, it[2]), edited(container, i, as_typename), dict(meta, form="typename-alias"))
             if f is None:
                 continue
             b = base(f["type"])
@@ -118,6 +130,12 @@ def edits(schema, doc, rng=None, max_per_rule=None):
                     sub2 = _get(d2, _path_of(doc, container, i))[i][4]
                     if sub2 and not has_typename(schema, d2, sub2, b):
                         emit("E7", "drop-typename@%s/%s" % (where, it[2]), d2, dict(meta, under="field"))
+                        # ... and the meta field replaced by an ordinary leaf that merely carries its name as an alias
+                        leaf = next((g["name"] for g in (schema.types[b].get("fields") or []) if schema.is_leaf(base(g["type"]))), None) if schema.kind(b) == "interface" else None
+                        if leaf:
+                            d4 = copy.deepcopy(d2)
+                            _get(d4, _path_of(doc, container, i))[i][4].insert(0, ["field", "__typename", leaf, None, None])
+                            emit("E7", "typename-only-as-alias-of-%s@%s/%s" % (leaf, where, it[2]), d4, dict(meta, under="field", form="alias"))
                     # E7: `__typename` only for ONE member type - through a named fragment on that member, or an inline one
                     for member in sorted(schema.possible(b))[:1]:
                         for how in ("member-spread", "member-inline"):
@@ -136,6 +154,12 @@ def edits(schema, doc, rng=None, max_per_rule=None):
         elif it[0] == "spread":
             # E4 undefined fragment
             emit("E4", "undefined-spread@%s" % where, edited(container, i, lambda c, k: c[k].__setitem__(1, "ZzNoSuchFragment")), meta)
+            # ... under a name that differs from a defined fragment's in case / underscores only (names are case-sensitive)
+            defined = {fr["name"] for fr in doc["fragments"]}
+            for alt in (it[1].lower(), it[1].upper(), it[1][:1].lower() + it[1][1:], "_".join(_split_words(it[1])).lower()):
+                if alt and alt not in defined and alt != it[1]:
+                    emit("E4", "undefined-spread-lookalike %s@%s" % (alt, where), edited(container, i, lambda c, k, alt=alt: c[k].__setitem__(1, alt)), dict(meta, form="lookalike"))
+                    break
         elif it[0] == "inline":
             # E5 type condition naming no schema type
             emit("E5", "unknown-condition@%s" % where, edited(container, i, lambda c, k: c[k].__setitem__(1, "ZzNoSuchType")), dict(meta, form="inline"))
